@@ -35,6 +35,8 @@ type NetOp struct {
 	Mirror  bool      `json:"mirror,omitempty"` // push --mirror
 	Form    string    `json:"form,omitempty"`   // merge: how BRANCH is spelled: "", heads, refs, short (last path segment), peel (B^), tilde0 (B~0)
 	SQLFail int       `json:"sql_fail,omitempty"` // the n-th SQL statement issued during the operation (any node's ref store) fails
+	StoreFault *Fault `json:"store_fault,omitempty"` // an object-store operation fails during the operation ...
+	FaultOn    string `json:"fault_on,omitempty"`    // ... on the node running it ("", "self") or on the remote ("R")
 }
 
 type NetSpec struct {
@@ -127,6 +129,17 @@ func genNetPlan(r *Rand, tier string, focus string, faults bool) NetPlan {
 			}
 			continue
 		}
+		if focus == "C09" && r.Chance(0.08) {
+			// a tag that moves on the remote to a commit no fetched branch reaches, fetched by a tags-only forced fetch
+			b := Pick(r, netBranches)
+			tag := Pick(r, []string{"v1", "v2"})
+			cl := Pick(r, []string{"L", "L2"})
+			p.Ops = append(p.Ops, NetOp{Node: "R", Op: "commit", Branch: b, Variant: r.Intn(6)}, NetOp{Node: "R", Op: "rtag", Branch: b, Other: tag},
+				NetOp{Node: cl, Op: "fetch", Specs: []NetSpec{{Tags: true}}},
+				NetOp{Node: "R", Op: "commit", Branch: b, Variant: r.Intn(6)}, NetOp{Node: "R", Op: "rtag", Branch: b, Other: tag},
+				NetOp{Node: cl, Op: "fetch", Force: r.Chance(0.7), Specs: []NetSpec{{Tags: true, Plus: r.Chance(0.3)}}})
+			continue
+		}
 		if focus == "C09" && r.Chance(0.12) {
 			// a tag on an older commit of a branch, fetched together with the branch at a depth limit
 			b := Pick(r, netBranches)
@@ -195,6 +208,13 @@ func genNetPlan(r *Rand, tier string, focus string, faults bool) NetPlan {
 		}
 	}
 	if faults {
+		for i := range p.Ops {
+			o := &p.Ops[i]
+			if o.Node != "R" && (o.Op == "fetch" || o.Op == "pull" || o.Op == "push") && i > 2 && r.Chance(0.12) {
+				o.StoreFault = &Fault{Op: Pick(r, []string{"get", "exist", "exist", "read", "any"}), Prefix: Pick(r, []string{"tbl/", "tbl/", "blk/", "com/", ""}), Nth: r.Range(1, 25)}
+				o.FaultOn = Pick(r, []string{"self", "R"})
+			}
+		}
 		nf := r.Range(1, 4)
 		for i := 0; i < nf; i++ {
 			p.Faults = append(p.Faults, NetFault{At: r.Range(2, 40), Kind: Pick(r, []string{"lose-request", "lose-response", "500", "503", "stream-error", "restart", "delay"}), Arg: r.Range(1, 900)})
@@ -752,9 +772,31 @@ func execNet(t *testing.T, raw json.RawMessage, res *Result, focus string) {
 			sqlFired = false
 			_ = before
 		}
+		var faultStore *Store
+		if op.StoreFault != nil {
+			switch op.FaultOn {
+			case "", "self":
+				faultStore = n.Objs
+			case "R":
+				faultStore = R.Objs
+			default:
+				res.Invalid("fault_on")
+				return
+			}
+			f := *op.StoreFault
+			f.seen, f.Fired = 0, 0
+			faultStore.Faults = []*Fault{&f}
+		}
 		firedBefore := SQLFault.Fired
 		cr := n.Run(t, args...)
 		SQLFault.Arm(0)
+		if faultStore != nil {
+			if faultStore.FaultsFired() > 0 {
+				sqlFired = true // treated like any other fault during the operation
+				res.fault("store_op_error", 1)
+			}
+			faultStore.Faults = nil
+		}
 		if SQLFault.Fired > firedBefore {
 			sqlFired = true
 			res.fault("sql_statement_error", 1)
